@@ -458,7 +458,7 @@ def run_check(mod, tier, seed, replay=None):
   oracle_failures += ctx.extra_oracle_failures
 
   # -- verdict
-  known = [k for k in load_known() if k.get('property') == pid and k.get('status') == 'open']
+  known = [k for k in load_known() if (k.get('property') == pid or pid in k.get('also', [])) and k.get('status') == 'open']
   known_ids = {k['id'] for k in known}
   lines, violations, known_hits = [], 0, {}
   new_fail = []
